@@ -699,6 +699,10 @@ spec fn suffixCI(t string, suf string) bool =
 // iff it is at most 72 bytes of one-hex-digit labels before the suffix (the
 // 72-byte form being a full address), and then denotes that prefix.
 func PrefixFromReversedAddr
+  // the per-family decoders decide on the whole lower-cased name, not on a
+  // part of it
+  at_call subnetFromReversedV4 prove whole_name_v4: sameView(arg0, asciiLower(trimDot(old(arpa))))
+  at_call subnetFromReversedV6 prove whole_name_v6: sameView(arg0, asciiLower(trimDot(old(arpa))))
   from ValidateDomainName only grammar, safe_type, fresh_error
   from asciiToLower nothing
   from subnetFromReversedV6 only accepts, bits, address
@@ -729,4 +733,9 @@ func IPFromReversedAddr
      (forall i in 0..16: addrByte(addr, i) == hexval(t[62 - 4 * i]) * 16 + hexval(t[60 - 4 * i])))
   ensures v4_suffix: err == nil && addrIs4(addr) ==>
     (let t = trimDot(old(arpa)) in len(t) >= 13 && suffixCI(t, ".in-addr.arpa"))
+  // ... and everything before that suffix - not just some prefix of it - is
+  // what ipv4FromReversed decides on (its contract: a dotted quad accepted by
+  // netip whose octets are the address bytes in reverse)
+  at_call ipv4FromReversed prove whole_prefix:
+    (let t = asciiLower(trimDot(old(arpa))) in len(t) >= 13 && sameView(arg0, t[:len(t) - 13]))
 @*/
